@@ -73,6 +73,31 @@ int main(void)
 	printf("]\n\ndef sha256InitSize : Nat := 0\n\n");
 #endif
 
+	// the 64-bit big-endian bit length that lzma_sha256_finish stores in buffer.u8[56..63] (the digest overwrites only
+	// the first 32 bytes), tabulated for a grid of byte counts by running the compiled function
+	printf("/-- (size, big-endian value of buffer.u8[56..63] after lzma_sha256_finish with state.sha256.size = size) -/\n"
+		"def shaLenField : List (Nat × Nat) := [");
+#ifdef HAVE_INTERNAL_SHA256
+	{
+		static const uint64_t grid[] = { 0, 1, 55, 56, 64, 1000003, (UINT64_C(1) << 29) - 1, UINT64_C(1) << 29,
+			(UINT64_C(1) << 29) + 12345, (UINT64_C(1) << 30) + 5, (UINT64_C(1) << 31) + 7, (UINT64_C(1) << 32) - 1,
+			UINT64_C(1) << 32, (UINT64_C(1) << 32) + 64, (UINT64_C(5) << 32) + (UINT64_C(7) << 29) + 3,
+			(UINT64_C(1) << 45) + 99, (UINT64_C(1) << 61) - 1 };
+		for (size_t g = 0; g < sizeof(grid) / sizeof(grid[0]); ++g) {
+			lzma_check_state c;
+			memset(&c, 0, sizeof(c));
+			lzma_sha256_init(&c);
+			c.state.sha256.size = grid[g];
+			lzma_sha256_finish(&c);
+			uint64_t v = 0;
+			for (int i = 56; i < 64; ++i)
+				v = (v << 8) | c.buffer.u8[i];
+			printf("%s(%" PRIu64 ", %" PRIu64 ")", g ? ", " : "", grid[g], v);
+		}
+	}
+#endif
+	printf("]\n\n");
+
 	// check.c
 	printf("/-- lzma_check_size(0..15), then the value for 16 -/\ndef checkSizes : List Nat := [");
 	for (int i = 0; i <= 16; ++i)
